@@ -199,6 +199,13 @@ fn build(args: &ArgMatches) -> Result<bool, Box<dyn Error>> {
         input_path.parent().unwrap()
     };
 
+    // a bare pattern such as the default `*.bob` has an empty parent: the current directory
+    let input_dir = if input_dir.as_os_str().is_empty() {
+        Path::new(".")
+    } else {
+        input_dir
+    };
+
     if !input_dir.is_dir() {
         return Err(Box::from(format!(
             "[Error]: No such dir name is {} !",
